@@ -42,6 +42,12 @@ pub fn configs(tier: Tier) -> Vec<Box<dyn Config>> {
     let mut v: Vec<Box<dyn Config>> = Vec::new();
     // entry-style insertion into deep multi-home layouts at full load (layout grammar, RawTable::insert path)
     v.push(Box::new(super::rehash::RehashGrammar { tier }));
+    // probe windows that start at the last bucket and wrap (tables smaller than a group rely on the insert-slot fix-up)
+    v.push(cfg::<TKey, TVal>(Plan::Max, if q { 5 } else { 8 }, None, None, tier, ""));
+    v.push(cfg::<PKey, PVal>(Plan::Last, if q { 4 } else { 6 }, None, None, tier, ""));
+    // HashSet::entry and its Occupied / Vacant entries (full set alphabet)
+    v.push(super::c07::single(Plan::Zero, if q { 6 } else { 10 }, tier));
+    v.push(super::c07::single(Plan::Max, if q { 4 } else { 6 }, tier));
     if sse2 {
         v.push(cfg::<TKey, TVal>(Plan::Zero, if q { 9 } else { 11 }, None, None, tier, ""));
         v.push(cfg::<PKey, PVal>(Plan::Seq, if q { 4 } else { 5 }, None, None, tier, ""));
